@@ -40,9 +40,9 @@ M = [
  ("b-cash-check-ge", BM, "BrokerOrderType::MarketBuy | BrokerOrderType::LimitBuy | BrokerOrderType::StopBuy => {\n                if self.get_cash_balance() > value {", "BrokerOrderType::MarketBuy | BrokerOrderType::LimitBuy | BrokerOrderType::StopBuy => {\n                if self.get_cash_balance() >= value {", ["C06"]),
  ("b-holding-check-strict", BM, "                if holding >= order.get_shares() {", "                if holding > order.get_shares() {", ["C06"]),
  ("b-buffer-100", BM, "let plus_buffer = shortfall + 1000.0;", "let plus_buffer = shortfall + 100.0;", ["C09", "C10"]),
- ("b-deposit-in-failed", BM, "    fn deposit_cash(&mut self, cash: &f64) -> BrokerCashEvent {\n        match self.get_broker_state() {\n            BrokerState::Failed => {", "    fn deposit_cash(&mut self, cash: &f64) -> BrokerCashEvent {\n        match self.get_broker_state() {\n            BrokerState::Failed if *cash < 50_000.0 => {", ["C09"]),
+ ("b-deposit-in-failed", BM, "    fn deposit_cash(&mut self, cash: &f64) -> BrokerCashEvent {\n        match self.get_broker_state() {\n            BrokerState::Failed => {", "    fn deposit_cash(&mut self, cash: &f64) -> BrokerCashEvent {\n        match self.get_broker_state() {\n            BrokerState::Failed if *cash >= 50_000.0 => {\n                self.credit(cash);\n                BrokerCashEvent::DepositSuccess(*cash)\n            }\n            BrokerState::Failed => {", ["C09"]),
  ("b-liq-le-to-lt", BM, "                if position_value <= total_sold {", "                if position_value < total_sold {", ["C10"]),
- ("b-value-at-ask", BM, "                let price = quote.get_bid();\n                if let Some(qty) = self.get_position_qty(symbol) {", "                let price = quote.get_ask();\n                if let Some(qty) = self.get_position_qty(symbol) {", ["C11"]),
+ ("b-value-at-ask", BM, "            let price = quote.get_bid();\n            if let Some(qty) = self.get_position_qty(symbol) {", "            let price = quote.get_ask();\n            if let Some(qty) = self.get_position_qty(symbol) {", ["C11"]),
  ("b-quotes-replaced-not-merged", BU, "                //Update prices, these prices are not tradable\n                for (symbol, quote) in &quotes_response.quotes {", "                //Update prices, these prices are not tradable\n                self.latest_quotes.clear();\n                for (symbol, quote) in &quotes_response.quotes {", ["C11"]),
  ("b-costbasis-no-reset", BU, "                if (cum_qty).eq(&0.0) {\n                    cum_val = f64::default();\n                }", "", ["C11"]),
  ("b-diff-round", BM, "                (costs.0 / costs.1).floor().max(0.0)\n", "                (costs.0 / costs.1).round().max(0.0)\n", ["C12"]),
@@ -85,6 +85,9 @@ def main():
                 print(f"{name:34s} {p} {res:9s} {rows[-1]['wall_s']:6.1f}s  {rows[-1]['what'][:200]}", flush=True)
         finally:
             sh("git -C /repo checkout -- .")
+    old = json.load(open("/tmp/mut/handmut.json")) if os.path.exists("/tmp/mut/handmut.json") else []
+    done = {(r["mutant"], r["check"]) for r in rows}
+    rows = [r for r in old if (r["mutant"], r["check"]) not in done] + rows
     json.dump(rows, open("/tmp/mut/handmut.json", "w"), indent=1)
 
 main()
